@@ -20,8 +20,8 @@ open SoyVerif.Inst.C17 (tableOK ff0 pf0 ex1 ex2 ex3 ex4 ex5 ex6 ex7 ex8 ex9 exKe
 /-! ### table obligations -/
 
 theorem inRanges_list (t : Array (Nat × Nat × Nat)) (r : Nat) :
-    inRanges t r = t.toList.any fun e => e.1 ≤ r && r ≤ e.2.1 && (r - e.1) % e.2.2 == 0 := by
-  unfold inRanges; rw [Array.any_toList]
+    Lex.inRanges t r = t.toList.any fun e => e.1 ≤ r && r ≤ e.2.1 && (r - e.1) % e.2.2 == 0 := by
+  unfold Lex.inRanges; rw [Array.any_toList]
 
 /-- `unicode.IsLetter` on ASCII is `[A-Za-z]` (over the generated range table) -/
 theorem letter_ascii : ∀ n : Fin 128,
@@ -128,6 +128,23 @@ theorem lex_float (val : Bytes) (h : floatSpelling val = true) :
   Props.C17b.lex_float lexTableOK val h
 
 end
+
+/-- floats with Go's formatter (`F64.format`, the soft-float model of FormatFloat 'g'): no hypothesis on the
+    spelling — finiteness is enough (Lemmas/F64Shape.lean) -/
+theorem lex_float_finite (bits : UInt64) (hn : (F64.mk bits).isNaN = false) (hi : (F64.mk bits).isInf = false) :
+    lexAll (fmtFloatLit ffGo bits) true =
+      .items [⟨.tFloat, (fmtFloatLit ffGo bits).length, fmtFloatLit ffGo bits⟩, errItem] :=
+  Props.C17b.lex_float_finite lexTableOK bits hn hi
+
+theorem lex_print_go (e : Expr) (hF : floatsFinite e = true) (hN : NamesOk ff1 e = true) :
+    ∃ items, lexAll (printExpr ffGo e) true = .items items ∧ items.map Item.tk = toks ffGo e ++ [errTk] :=
+  Props.C17b.lex_print_go lexTableOK e hF hN
+
+/-- `1e+21 * 100.0`: printed with the soft-float formatter and lexed back -/
+def exFloat : Expr := .bin .mul 0 (.float 0 0x444b1ae4d6e2ef50) (.float 0 0x4059000000000000)
+example : printExpr ffGo exFloat = [49, 101, 43, 50, 49, 32, 42, 32, 49, 48, 48, 46, 48] := by decide +kernel
+example : ∃ items, lexAll (printExpr ffGo exFloat) true = .items items ∧ items.map Item.tk = toks ffGo exFloat ++ [errTk] :=
+  lex_print_go exFloat (by decide +kernel) (by decide)
 
 /-! ### `NamesOk` is decidable; what it accepts and rejects -/
 
